@@ -155,9 +155,19 @@ Section Follow.
     {| f_file := f_file f; f_mem := f_mem f; f_aofsz := f_aofsz f;
        f_cup := b; f_once := f_once f || b; f_ses := f_ses f; f_broken := f_broken f |}.
 
-  (* followStep from the start up to and including the AOF command and the first caught-up test *)
+  (* the first statements of followStep, executed before the leader is dialled: the caught-up flag is
+     cleared (setCaughtUp(false) keeps only the "once" bit) and whatever session existed is over.
+     A handshake that stalls or fails at any later stage (dial, AUTH, SERVER, the checksum probes,
+     REPLCONF, AOF) leaves the follower in exactly this state. *)
+  Definition begin_connect (f : fol) : fol :=
+    {| f_file := f_file f; f_mem := f_mem f; f_aofsz := f_aofsz f; f_cup := false;
+       f_once := f_once f; f_ses := None; f_broken := f_broken f |}.
+
+  (* followStep from the start up to and including the AOF command and the first caught-up test
+     (= begin_connect followed by the handshake; the result does not depend on the old flag) *)
   Definition connect (md : mode) (l : file) (f : fol) : fol :=
     let aofsize := flen l in
+    let f := begin_connect f in
     let '(res, _) := check_some md (f_file f) (f_aofsz f) l in
     let st3 :=         (* Some (file, mem, aofsz, pos) or None on error *)
       match res with
@@ -231,6 +241,7 @@ Section Follow.
     end.
 
   Inductive event :=
+  | EBegin                 (* a (re)connect attempt starts (and, if nothing else follows, stalls or fails) *)
   | EConnect               (* the follower (re)connects: a whole followStep prologue *)
   | EDeliver               (* the next streamed command is handled *)
   | EDrop                  (* the replication connection is lost or killed *)
@@ -242,6 +253,7 @@ Section Follow.
   Definition step (md : mode) (w : file * fol) (e : event) : file * fol :=
     let '(l, f) := w in
     match e with
+    | EBegin => (l, begin_connect f)
     | EConnect => (l, connect md l f)
     | EDeliver => (l, deliver f)
     | EDrop => (l, drop_conn f)
